@@ -86,6 +86,13 @@ def generate(rng, tier):
     if case["render"] == "log":
         # a layer with zero and negative values under the logarithmic colour scale
         case["layers"][0] = {"key": "flag", "mode": rng.choice([None, "image"])}
+    if not case["render"] and rng.random() < 0.1:
+        # a quantity that is infinite in some cells (a time scale with zero rate), as the last or as another layer
+        lay = {"key": "tcool", "mode": rng.choice([None, None, "image"])}
+        if rng.random() < 0.7:
+            case["layers"].append(lay)
+        else:
+            case["layers"].insert(0, lay)
     return case
 
 
@@ -370,6 +377,10 @@ def setup(case):
     dg = mesh_datagroup(m, cells)
     loc = Locator(cells, m["ndim"])
     vals = cell_values(m, cells)
+    if any(l["key"] == "tcool" for l in case.get("layers", [])):
+        g = np.array([c["gid"] for c in cells], dtype=float)
+        vals["tcool"] = np.where(g.astype(np.int64) % 3 == 1, np.inf, 10.0 + g)
+        dg["tcool"] = osyris.Array(values=vals["tcool"].copy(), unit="s")
     origin_s = np.zeros(3)
     if case["view"]["origin"] is not None:
         origin_s[: m["ndim"]] = case["view"]["origin"]
